@@ -1,12 +1,10 @@
 import Driver.Proto
-import Driver.Lru
+import Driver.Registry
 open Driver
-
-def drivers : List (String × CaseFn) := [("lru", Driver.Lru.runCase)]
 
 def main (args : List String) : IO UInt32 := do
   let some name := args.head? | do IO.eprintln "usage: driver <name> < trace"; return 2
-  let some (_, fn) := drivers.find? (·.1 == name) | do IO.eprintln s!"unknown driver {name}"; return 2
+  let some (_, fn) := Driver.drivers.find? (·.1 == name) | do IO.eprintln s!"unknown driver {name}"; return 2
   let lines ← readAll (← IO.getStdin) #[]
   let cases := groupCases lines
   let mut nrep := 0
